@@ -1712,3 +1712,25 @@ for _p in ('C15', 'C09', 'C14'):
 CONTROLS['C15'] += [
     M('c15-seed-deref-before-none-test', ORP, _UPD_OLD, _HOIST + _NONE + _GATE, 'R15.10'),
 ]
+
+HU2 = H + 'util.py'
+_FLAG_SEED = [
+    (HU2, "    created_new_consumer = False\n    try:\n        consumer = consumer_obj.Consumer(\n", "    try:\n        consumer = consumer_obj.Consumer(\n"),
+    (HU2, "        consumer.create()\n        created_new_consumer = True\n", "        consumer.create()\n"),
+    (HU2, "    return consumer, created_new_consumer\n\n\ndef ensure_consumer", "    return consumer\n\n\ndef ensure_consumer"),
+    (HU2, "        consumer, created_new_consumer = _create_consumer(\n            ctx, consumer_uuid, proj, user, cons_type_id,\n            expect_new=requires_consumer_generation)\n",
+          "        consumer = _create_consumer(\n            ctx, consumer_uuid, proj, user, cons_type_id,\n            expect_new=requires_consumer_generation)\n        created_new_consumer = True\n"),
+]
+CONTROLS['C12'] += [M2('c12-seed-created-flag-always-true', _FLAG_SEED, 'R12.8')]
+CONTROLS['C08'] += [M2('c08-seed-created-flag-always-true', _FLAG_SEED, 'R8.7')]
+CONTROLS['C07'] += [
+    M2('c07-seed-created-flag-always-true', _FLAG_SEED, 'R7.8'),
+    M('c07-seed-collision-adopted-at-generation-0', HU2,
+      "        if expect_new:\n            # The caller told us", "        if expect_new and consumer.generation:\n            # The caller told us", 'R7.8'),
+    B2('c07-benign-flag-set-in-else', [
+        (HU2, "        consumer.create()\n        created_new_consumer = True\n    except exception.ConsumerExists:",
+         "        consumer.create()\n    except exception.ConsumerExists:"),
+        (HU2, "            consumer.update()\n    return consumer, created_new_consumer\n",
+         "            consumer.update()\n    else:\n        created_new_consumer = True\n    return consumer, created_new_consumer\n")]),
+]
+CONTROLS['C05'] += [reuse('C10', 'c10-drop-incr-delete-inventory', 'c05-inventory-change-no-cas', 'R5.6')]
